@@ -594,16 +594,20 @@ pub fn arb_value(doc: &SDoc, ty: &STy, cfg: ValCfg, in_key: bool) -> BoxedStrate
                 let tt = doc.wire_tt(e);
                 let inner = ValCfg { depth: cfg.depth.saturating_sub(1), ..cfg };
                 let max = if cfg.depth == 0 { 0 } else { cfg.max_elems };
+                // distinct as the *reader* sees them: two wire values that differ only in an absent
+                // member with an IDL default are the same element once decoded
+                let (d, et) = (std::sync::Arc::new(doc.clone()), (**e).clone());
                 prop::collection::vec(arb_value(doc, e, inner, true), 0..=max)
-                    .prop_map(move |es| TVal::Set(tt, distinct(es, |v| canon_key(&canon(v)))))
+                    .prop_map(move |es| TVal::Set(tt, distinct(es, |v| d.filled_key(&et, v))))
                     .boxed()
             }
             STy::Map(k, v) => {
                 let (kt, vt) = (doc.wire_tt(k), doc.wire_tt(v));
                 let inner = ValCfg { depth: cfg.depth.saturating_sub(1), ..cfg };
                 let max = if cfg.depth == 0 { 0 } else { cfg.max_elems };
+                let (d, kty) = (std::sync::Arc::new(doc.clone()), (**k).clone());
                 prop::collection::vec((arb_value(doc, k, inner, true), arb_value(doc, v, inner, in_key)), 0..=max)
-                    .prop_map(move |es| TVal::Map(kt, vt, distinct(es, |(k, _)| canon_key(&canon(k)))))
+                    .prop_map(move |es| TVal::Map(kt, vt, distinct(es, |(k, _)| d.filled_key(&kty, k))))
                     .boxed()
             }
             STy::Named(..) => unreachable!(),
@@ -793,6 +797,14 @@ impl SDoc {
 // conformance and known-finding predicates
 
 impl SDoc {
+    /// Identity of a set member / map key as the reader sees it: canonical form after the
+    /// reader's defaults have been filled in.
+    pub fn filled_key(&self, ty: &STy, v: &TVal) -> Vec<u8> {
+        match self.project(ty, v, false) {
+            Expect::Value(x) => canon_key(&canon(&x)),
+            Expect::Error(_) => canon_key(&canon(v)),
+        }
+    }
     /// Is `v` a value of the declared type: every field known with the declared wire type,
     /// required fields present, unions with exactly one variant (or none for a void result)?
     pub fn conforms_shape(&self, s: &Shape, v: &TVal) -> bool {
@@ -812,8 +824,16 @@ impl SDoc {
             Resolved::Union(fs) => self.conforms_union(fs, false, v),
             Resolved::Enum(_) => true,
             Resolved::Plain(p) => match (p, v) {
-                (STy::List(e), TVal::List(t, es)) | (STy::Set(e), TVal::Set(t, es)) => (*t == self.wire_tt(e) || es.is_empty()) && es.iter().all(|x| self.conforms(e, x)),
-                (STy::Map(k, vt), TVal::Map(a, b, es)) => (es.is_empty() || (*a == self.wire_tt(k) && *b == self.wire_tt(vt))) && es.iter().all(|(x, y)| self.conforms(k, x) && self.conforms(vt, y)),
+                (STy::List(e), TVal::List(t, es)) => (*t == self.wire_tt(e) || es.is_empty()) && es.iter().all(|x| self.conforms(e, x)),
+                // set members and map keys are distinct as the reader sees them (defaults filled)
+                (STy::Set(e), TVal::Set(t, es)) => {
+                    (*t == self.wire_tt(e) || es.is_empty()) && es.iter().all(|x| self.conforms(e, x)) && es.iter().map(|x| self.filled_key(e, x)).collect::<std::collections::BTreeSet<_>>().len() == es.len()
+                }
+                (STy::Map(k, vt), TVal::Map(a, b, es)) => {
+                    (es.is_empty() || (*a == self.wire_tt(k) && *b == self.wire_tt(vt)))
+                        && es.iter().all(|(x, y)| self.conforms(k, x) && self.conforms(vt, y))
+                        && es.iter().map(|(x, _)| self.filled_key(k, x)).collect::<std::collections::BTreeSet<_>>().len() == es.len()
+                }
                 _ => true,
             },
         }
@@ -1201,8 +1221,20 @@ impl SDoc {
             Resolved::Struct(fs) | Resolved::Union(fs) => self.tc_fields(fs, v),
             Resolved::Enum(_) => true,
             Resolved::Plain(p) => match (p, v) {
-                (STy::List(e), TVal::List(t, es)) | (STy::Set(e), TVal::Set(t, es)) => es.is_empty() || (*t == self.wire_tt(e) && es.iter().all(|x| self.tc_ty(e, x))),
-                (STy::Map(k, vt), TVal::Map(a, b, es)) => es.is_empty() || (*a == self.wire_tt(k) && *b == self.wire_tt(vt) && es.iter().all(|(x, y)| self.tc_ty(k, x) && self.tc_ty(vt, y))),
+                (STy::List(e), TVal::List(t, es)) => es.is_empty() || (*t == self.wire_tt(e) && es.iter().all(|x| self.tc_ty(e, x))),
+                // set members / map keys must stay distinct for the reader (unknown members
+                // ignored, defaults filled): which of two colliding entries survives is not
+                // something the properties fix
+                (STy::Set(e), TVal::Set(t, es)) => {
+                    es.is_empty() || (*t == self.wire_tt(e) && es.iter().all(|x| self.tc_ty(e, x)) && es.iter().map(|x| self.filled_key(e, x)).collect::<std::collections::BTreeSet<_>>().len() == es.len())
+                }
+                (STy::Map(k, vt), TVal::Map(a, b, es)) => {
+                    es.is_empty()
+                        || (*a == self.wire_tt(k)
+                            && *b == self.wire_tt(vt)
+                            && es.iter().all(|(x, y)| self.tc_ty(k, x) && self.tc_ty(vt, y))
+                            && es.iter().map(|(x, _)| self.filled_key(k, x)).collect::<std::collections::BTreeSet<_>>().len() == es.len())
+                }
                 _ => true,
             },
         }
